@@ -12,14 +12,34 @@ CC_LENS = [0, 1, 3, 4, 7, 8]
 
 
 def frame_bytes(fd, can_id, data, flags=0):
-    if fd:
-        return struct.pack('<IBBBB', can_id, len(data), flags, 0, 0) + bytes(data) + bytes(64 - len(data))
-    return struct.pack('<IBBBB', can_id, len(data), 0, 0, 0) + bytes(data) + bytes(8 - len(data))
+    """what read() on the CAN socket returns: struct canfd_frame (72 bytes) for an FD frame, struct can_frame (16 bytes)
+    for a classic one - also on a socket with FD frames enabled. Bits 8..11 of `flags` are the len8_dlc byte of a classic frame."""
+    if fd and (flags & FDF):
+        return struct.pack('<IBBBB', can_id, len(data), flags & 0xFF, 0, 0) + bytes(data) + bytes(64 - len(data))
+    return struct.pack('<IBBBB', can_id, len(data), 0, 0, (flags >> 8) & 0xF) + bytes(data) + bytes(8 - len(data))
 
 
 def parse_frame(fd, b):
+    """a frame written by the listener: 72 bytes = FD frame, 16 bytes = classic frame"""
     can_id, ln, flags = struct.unpack('<IBB', b[:6])
-    return (can_id, ln, flags if fd else 0, bytes(b[8:8 + min(ln, 64 if fd else 8)]))
+    isfd = len(b) > 16
+    return (can_id, ln, ((flags | FDF) if isfd else 0) if fd else 0, bytes(b[8:8 + min(ln, 64 if isfd else 8)]))
+
+
+NOW_NS = 1700000000 * 10**9 + 123456789      # the seam's fixed clock, as the talker turns it into a message timestamp
+
+
+def reference_packets(cf, udp, fd, count, frames):
+    """the packets a correct talker builds from these frames (capacity permitting): byte-exact reference"""
+    out = []
+    for p in range(len(frames) // count):
+        msgs = b''
+        for cid, data, flags in frames[p * count:(p + 1) * count]:
+            isfd = bool(fd and (flags & FDF))
+            msgs += e4.can_msg(cid & 0x1FFFFFFF, data, eff=1 if cid & EFF else 0, rtr=1 if cid & RTR else 0, fdf=1 if isfd else 0,
+                               brs=1 if isfd and flags & BRS else 0, esi=1 if isfd and flags & ESI else 0, ts=NOW_NS)
+        out.append(bytes(e4.control(cf, msgs, udp, seq=p)))
+    return out
 
 
 def alphabet(fd):
@@ -107,6 +127,20 @@ def run(prop, tier):
                 cid, _, flags = R[k % len(R)]
                 big.append((cid, bytes((k + i) & 0xFF for i in range(64 if fd else 8)), flags))
             cases.append(((cf, udp, fd), n, big))
+        # what else the CAN socket can hand over: classic frames on a socket with FD frames enabled (read() returns 16 bytes),
+        # alone and mixed with FD frames in one packet; classic frames of length 8 with a raw DLC of 9..15 in len8_dlc
+        if fd:
+            for cid, data, _ in alphabet(0):
+                cases.append(((cf, udp, fd), 1, [(cid, data, 0)]))
+            mixed = R[:4] + [(c, d, 0) for c, d, _ in reduced(0)[:4]]
+            for tup in itertools.product(mixed, repeat=2):
+                cases.append(((cf, udp, fd), 2, list(tup)))
+            for tup in itertools.product(mixed[::2], repeat=3):
+                cases.append(((cf, udp, fd), 3, list(tup)))
+        for dlc in range(9, 16):
+            for cid in (0x123, 0x123 | EFF):
+                cases.append(((cf, udp, fd), 1, [(cid, bytes(range(0x31, 0x39)), dlc << 8)]))
+            cases.append(((cf, udp, fd), 2, [(0x123, bytes(range(0x31, 0x39)), dlc << 8), (0x124, b'\x01', R[0][2] if fd else 0)]))
         # packets filled up to and beyond the talker's 1500-byte buffer: counts around the capacity for maximal, empty and mixed frames
         hdrlen = (4 if udp else 0) + (24 if cf == 'tscf' else 12)
         maxd = 64 if fd else 8
@@ -173,15 +207,29 @@ def run(prop, tier):
                     n, hl = e4.getf(p, 'Ntscf', 'ntscf_data_length', off), 12
                 if n != len(p) - off - hl:
                     viol('talker: control header data length != ACF bytes that follow (%s)' % cf, 'T|%d' % i, '%s count=%d: announces %d, %d bytes follow' % (mname, count, n, len(p) - off - hl))
+            if not split_ok[i] and vtag == 'asan-O1':
+                ref = reference_packets(cf, udp, fd, count, frames)
+                for pi_, (a_, b_) in enumerate(zip(pkts, ref)):
+                    if a_ != b_:
+                        dif = next((k for k in range(min(len(a_), len(b_))) if a_[k] != b_[k]), min(len(a_), len(b_)))
+                        viol('talker: packet bytes differ from the reference encoding (%s)' % ('first packet' if pi_ == 0 else 'later packet'), 'T|%d' % i,
+                             '%s count=%d packet %d: first difference at byte %d: sent %s reference %s' % (mname, count, pi_, dif, a_[max(0, dif - 4):dif + 8].hex(), b_[max(0, dif - 4):dif + 8].hex()))
+                        break
             pk[i] = pkts
             lscripts.append(('l%d' % i, listener_args(udp), 'fd' if fd else '-', ['D' + p.hex() for p in pkts]))
+            if not udp and any(len(p) < 46 for p in pkts):
+                # over Ethernet a short PDU arrives zero-padded to the minimum frame size (46 bytes of payload)
+                lscripts.append(('lp%d' % i, listener_args(udp), 'fd' if fd else '-', ['D' + (p + bytes(max(0, 46 - len(p)))).hex() for p in pkts]))
         lres = e4.run_batch(listener, lscripts)
-        for i, (mode, count, frames) in enumerate(cases):
+        for i, (mode, count, frames) in [(i_, c_) for i_, c_ in enumerate(cases)] + [(-1 - i_, c_) for i_, c_ in enumerate(cases) if ('lp%d' % i_) in lres]:
+            padded = i < 0
+            if padded:
+                i = -1 - i
             if i not in pk:
                 continue
             cf, udp, fd = mode
-            mname = '%s/%s/%s' % (cf, 'udp' if udp else 'raw', 'fd' if fd else 'classic')
-            st, eff, rep = lres['l%d' % i]
+            mname = '%s/%s/%s%s' % (cf, 'udp' if udp else 'raw', 'fd' if fd else 'classic', ' (padded to the Ethernet minimum)' if padded else '')
+            st, eff, rep = lres[('lp%d' if padded else 'l%d') % i]
             tot['tun'] += 1
             cls = e4.classify(st, rep)
             if cls:
